@@ -142,3 +142,14 @@ package lib
 //@ ghost func Back(s string, i int, n int) int
 //@ axiom back-0:    forall s string, i int {Back(s, i, 0)} :: Back(s, i, 0) == i
 //@ axiom back-step: forall s string, i int, n int {Back(s, i, n)} :: 0 <= n && 0 < Back(s, i, n) && Back(s, i, n) <= len(s) ==> Back(s, i, n + 1) == PrevStart(s, Back(s, i, n))
+
+// EncAt(s, i, ch): the UTF-8 encoding of ch (for utf8.RuneError: an invalid byte) starts at byte i of s. Abstract; what is
+// assumed of it: it is about the bytes from i on, and an encoding never starts inside the rune decoded at an occurrence.
+//@ ghost func EncAt(s string, i int, ch rune) bool
+//@ axiom encat-suffix:  forall s string, a int, k int, ch rune {EncAt(s[a:], k, ch)} :: 0 <= a && a <= len(s) && 0 <= k ==> EncAt(s[a:], k, ch) == EncAt(s, a + k, ch)
+//@ axiom encat-suffix2: forall s string, a int, k int, ch rune {s[a:], EncAt(s, k, ch)} :: 0 <= a && a <= k && a <= len(s) ==> EncAt(s[a:], k - a, ch) == EncAt(s, k, ch)
+//@ axiom encat-inside:  forall s string, i int, k int, ch rune {EncAt(s, i, ch), EncAt(s, k, ch)} :: EncAt(s, i, ch) && 0 <= i && i < k && k < i + widthat(s, i) ==> !EncAt(s, k, ch)
+//@ lib func strings.IndexRune(s string, ch rune) (r int)
+//@   pure
+//@   ensures[range] r == -1 || (0 <= r && r < len(s) && EncAt(s, r, ch))
+//@   ensures[first] forall k int {EncAt(s, k, ch)} :: 0 <= k && (r < 0 || k < r) ==> !EncAt(s, k, ch)
